@@ -285,7 +285,8 @@ class TableFacts(object):
         out = {}
         if which == "task.item":
             try:
-                out = self._symbolic_leaves(f, template, domain, ev_param, atomizer)
+                out = self._symbolic_leaves(f, template, domain, ev_param, atomizer,
+                                            strict_opaque=True)
             except AnalysisError as symbolic_failure:
                 # a shape the symbolic enumerator does not model (loops with flags, a table of
                 # groups ...): interpret the function over representative item lists instead
@@ -304,7 +305,8 @@ class TableFacts(object):
             return out
         if which == "task.request":
             try:
-                out = self._symbolic_leaves(f, template, domain, ev_param, atomizer)
+                out = self._symbolic_leaves(f, template, domain, ev_param, atomizer,
+                                            strict_opaque=True)
             except AnalysisError as symbolic_failure:
                 from sa import replay
                 sets = replay.status_sets_in(self.prog, f, self.ALL) | {
@@ -323,7 +325,7 @@ class TableFacts(object):
         self._leaves[which] = out
         return out
 
-    def _symbolic_leaves(self, f, template, domain, ev_param, atomizer):
+    def _symbolic_leaves(self, f, template, domain, ev_param, atomizer, strict_opaque=False):
         out = {}
         for s in domain:
             bindings = {
@@ -340,10 +342,14 @@ class TableFacts(object):
                                         % (f.qualname, s, value))
                 if not isinstance(value, str):
                     raise AnalysisError("%s returns %r for status %s" % (f.qualname, value, s))
-                # a test the enumerator cannot give a meaning to: the states that generate the
-                # name are then unknown, and any verdict on the tables would be a guess
+                # a test the enumerator cannot give a meaning to.  On the task side (items of a
+                # with-items task) the function is then replayed over all abstract states (see
+                # leaves()).  On the workflow side the unknown test stays in the decisions as a
+                # free boolean: the name is taken to be generated whatever the test says in any
+                # state - an over-approximation of the states, so a table cell that is only
+                # right if the unknown test implies something is reported, not guessed right.
                 for atom, _v in decisions:
-                    if atom and atom[0] == "opaque":
+                    if atom and atom[0] == "opaque" and strict_opaque:
                         raise AnalysisError(
                             "%s decides the event name on %s, which is not one of the state "
                             "predicates the analysis understands" % (f.qualname, atom[1]))
